@@ -66,8 +66,6 @@ def fill_specs():
             for u, f, cap in itertools.product(FILL_UNITS, FILL_FACTORS + ([F(1001, 1000), F(20)] if THOROUGH['on'] else []), CAPS):
                 if cap != 'inf' and not THOROUGH['on'] and u not in ('mL', 'g', 'mmol'):
                     continue
-                if solvent == 'lipase' and not u.endswith('g'):
-                    continue
                 yield {'op': 'fill_to', 'mix': mix, 'solvent': solvent, 'u': u, 'f': [f.numerator, f.denominator], 'cap': cap}
 
 
@@ -95,7 +93,7 @@ def only_solvent_increased(before, after, solvent):
 
 def run_spec(sp):
     vs, cls = run_spec_direct(sp)
-    if vs or cls == ('skip',) or sp['cap'] not in ('inf', 'just-short'):
+    if vs or cls[0].startswith('skip') or sp['cap'] not in ('inf', 'just-short'):
         return vs, cls
     return via_recipe(sp, cls)
 
@@ -252,7 +250,24 @@ def run_spec_direct(sp):
     target, _ = ref.parse_quantity(qstr)
     per = ref.per_base(rsv, base)
     if per == 0:
-        return [], ('skip',)
+        # the filler cannot be measured in the unit of the target (moles of an enzyme; a volume of a substance without volume):
+        # no amount of it reaches a target above the current quantity - the request must be refused, not silently left unmet
+        if f <= 1 or sp['cap'] != 'inf' or nothing_measured:
+            return [], ('skip',)
+        c = pp.Container('C', 'inf L', contents)
+        call = f"Container({sp['mix']}).fill_to({sp['solvent']}, {qstr!r})"
+        try:
+            r = c.fill_to(solvent, qstr)
+        except ValueError:
+            return [], ('skip-refused-unmeasurable-filler',)
+        except Exception as e:  # noqa
+            return [V(f"Container.fill_to | wrong-exception | filler-cannot-be-measured,unit={base}",
+                      f"{call} raised {type(e).__name__}: {e}", case)], ('refuse', type(e).__name__)
+        got = ref.measure(pp, r.contents, base)
+        return [V(f"Container.fill_to | accepted-infeasible | filler-cannot-be-measured,unit={base},solvent-kind={rsv.kind}",
+                  f"{call} returned a container holding {float(got / pf)!r} {sp['u']}: no amount of {sp['solvent']} can be "
+                  f"measured in {base}, the target {float(target / pf)!r} {sp['u']} cannot be reached and the request must be refused",
+                  case, 'ValueError', 'returned')], ('refuse', 'returned')
     x = (target - ref.measure(pp, probe.contents, base)) / per
     needed = V0 + max(x, 0) * ref.per_base(rsv, 'L')
     if f <= 1 and sp['cap'] != 'inf':
@@ -297,7 +312,9 @@ def run_spec_direct(sp):
     if why:
         return [V(f"Container.fill_to | extra-change | {feat}", f"{call}: {why}", case)], (expect, 'returned')
     got = ref.measure(pp, r.contents, base)
-    if abs(float(got) - float(target)) > 1e-6 * float(target):
+    # the filler is stored with the documented resolution (10^-precision of its storage unit): in the unit of the target that is
+    quantum = float(ref.base_amount(pp, rsv, 10.0 ** -pp.config.internal_precision) * ref.per_base(rsv, base))
+    if abs(float(got) - float(target)) > 1e-6 * float(target) + 2 * quantum:
         return [V(f"Container.fill_to | constraint-missed | {feat}",
                   f"{call}: resulting total {float(got / pf)!r} {sp['u']}, requested {float(target / pf)!r}", case,
                   float(target / pf), float(got / pf))], (expect, 'returned')
